@@ -49,7 +49,8 @@ def required_cells(tier):
             "mode:none": 1, "mode:multithread": 1, "mode:multiprocess": 1,
             "schedule:threads": 6, "orders_observed_threads": 6,
             "env:pttempo": 2, "env:ancilla": 3, "order:1": 3, "order:2": 3,
-            "subset:noncontiguous": 3, "state-query-between-computes": 4}
+            "subset:noncontiguous": 3, "state-query-between-computes": 4,
+            "truncation:coarse": 1, "coarse-run-before": 2}
 
 
 def cases(tier, seed):
@@ -89,9 +90,12 @@ def _pt_tempo(rng, d, dt, nsteps, epsrel=1e-10):
         progress_type="silent")
 
 
-def check_consistency(res, record, dims, violations, tol, what):
+def check_consistency(res, record, dims, violations, tol, what,
+                      norm_tol=None):
     """Partial traces of recorded subsets must agree with recorded smaller
-    subsets; norm one."""
+    subsets (and the trace of every recorded state with the reported norm);
+    norm one up to norm_tol."""
+    norm_tol = tol if norm_tol is None else norm_tol
     n_checked = 0
     worst = 0.0
     for big in record:
@@ -118,9 +122,21 @@ def check_consistency(res, record, dims, violations, tol, what):
                             "detail": {}})
                         return n_checked, worst
     nrm = np.array(res["norm"])
+    # the trace of every recorded state is the reported norm of that step
+    for key in record:
+        st = np.array(res["dynamics"][key].states)
+        tr = np.trace(st, axis1=1, axis2=2)
+        dtr = float(np.abs(tr - nrm[:len(tr)]).max())
+        n_checked += 1
+        worst = max(worst, dtr)
+        if dtr > tol:
+            violations.append({
+                "what": f"{what}: the trace of the recorded state of {key} "
+                        f"differs from the reported norm by {dtr:.3e}",
+                "mechanism": "partial-trace", "detail": {}})
+            return n_checked, worst
     dn = float(np.abs(nrm - 1).max())
-    worst = max(worst, dn)
-    if dn > tol:
+    if dn > norm_tol:
         violations.append({"what": f"{what}: norm deviates from one by "
                            f"{dn:.3e}", "mechanism": "norm", "detail": {}})
     return n_checked, worst
@@ -140,6 +156,12 @@ def run_physics(case):
     violations, cells, monitors, obs = [], ["variant:" + kind,
                                             f"order:{order}"], {}, {}
     teps = 1e-11
+    coarse = bool(kind == "consistency" and (i // 4) % 2 == 1)
+    if coarse:
+        # a coarse truncation: the recorded reduced states all derive from
+        # ONE truncated chain state, so they stay mutually consistent under
+        # partial trace to rounding, whatever the truncation error is
+        teps = float([1e-4, 1e-3][(i // 8) % 2])
     if kind == "uncoupled":
         dims = [[2, 3], [2, 2, 3], [3, 2, 2, 2], [2] * 5, [2, 3, 2, 2, 2, 2]][
             (i // 4) % 5]
@@ -224,6 +246,14 @@ def run_physics(case):
             [(0, 2), (1, 3), (0, 1, 3)]
         cells.append("subset:noncontiguous")
     record = list(dict.fromkeys(record))
+    if kind in ("exact2", "commuting") and (i // 4) % 2 == 0:
+        # a convergence study in one process: the same chain was run with a
+        # coarse tolerance just before (the requested tolerance of THIS run
+        # is what counts)
+        oqupy.PtTebd(oqupy.AugmentedMPS(rhos), sys_chain, pts,
+                     oqupy.PtTebdParameters(dt=dt, epsrel=1e-3, order=order),
+                     dynamics_sites=[0]).compute(1, progress_type="silent")
+        cells.append("coarse-run-before")
     params = oqupy.PtTebdParameters(dt=dt, epsrel=teps, order=order)
     tebd = oqupy.PtTebd(oqupy.AugmentedMPS(rhos), sys_chain, pts, params,
                         dynamics_sites=record, start_time=0.25)
@@ -248,7 +278,11 @@ def run_physics(case):
         violations.append({"what": "time axis wrong", "mechanism": "times",
                            "detail": {"time": res["time"]}})
     tol = 1e-8
-    nchk, worst = check_consistency(res, record, dims, violations, tol, kind)
+    nchk, worst = check_consistency(
+        res, record, dims, violations, tol, kind,
+        norm_tol=(1e3 * teps * n * nsteps) if coarse else None)
+    if coarse:
+        cells.append("truncation:coarse")
     monitors["partial_traces_checked"] = nchk
     obs["consistency_dev"] = worst
     effect = 1.0
